@@ -120,15 +120,23 @@ Qed.
 (* ---- rmt.VerifyProof / CalculateRootFromUpdateData: index arithmetic with explicit Panic / OutOfFuel outcomes ----
    for every branch hash function and every (getHeight, getLayerStructure) pair with one layer entry per level and height
    <= 4096 (the Go code appends exactly one entry per layer < height; its floating-point height is <= 65) *)
-Theorem C09_rmt_calculate_path_nodes_never_panics : forall bh gh gls,
-  (forall size, List.length (gls size) = N.to_nat (gh size)) -> (forall size, gh size <= 4096) ->
-  forall qh size idxs sibs, fine (calculate_path_nodes bh gh gls qh size idxs sibs).
+Theorem C09_rmt_calculate_path_nodes_never_panics : forall bh gh gls size,
+  List.length (gls size) = N.to_nat (gh size) -> gh size <= 4096 ->
+  forall qh idxs sibs, fine (calculate_path_nodes bh gh gls qh size idxs sibs).
 Proof. intros. apply calculate_path_nodes_total; assumption. Qed.
 
-Theorem C09_rmt_verify_proof_never_panics : forall bh gh gls,
-  (forall size, List.length (gls size) = N.to_nat (gh size)) -> (forall size, gh size <= 4096) ->
-  forall qh size idxs sibs root, fine (verify_proof bh gh gls qh size idxs sibs root).
+Theorem C09_rmt_verify_proof_never_panics : forall bh gh gls size,
+  List.length (gls size) = N.to_nat (gh size) -> gh size <= 4096 ->
+  forall qh idxs sibs root, fine (verify_proof bh gh gls qh size idxs sibs root).
 Proof. intros. apply verify_proof_total; assumption. Qed.
+
+(* the hypotheses discharged for the integer getHeight / getLayerStructure used in the correspondence, every uint64 size *)
+Theorem C09_rmt_verify_proof_never_panics_int : forall bh qh size idxs sibs root, size < 2^64 ->
+  fine (verify_proof bh gh_int gls_int qh size idxs sibs root).
+Proof. exact verify_proof_total_int. Qed.
+Theorem C09_rmt_calculate_path_nodes_never_panics_int : forall bh qh size idxs sibs, size < 2^64 ->
+  fine (calculate_path_nodes bh gh_int gls_int qh size idxs sibs).
+Proof. exact calculate_path_nodes_total_int. Qed.
 
 (* the main loop runs with fuel [measure (sort idxs)], at most 65 iterations per index of the proof *)
 Theorem C09_rmt_fuel_bounded_by_input : forall sorted, Forall (fun x => x < 2^64) sorted ->
